@@ -78,7 +78,7 @@ CHECKS = {
 }
 
 # properties whose check has been verified silent (exit 0) on the current tree
-READY = {"C02", "C03", "C04", "C05", "C06", "C07", "C08", "C09", "C10", "C11", "C12", "C13", "C14", "C15", "C16", "C17", "C18", "C19", "C20"}
+READY = {"C01", "C02", "C03", "C04", "C05", "C06", "C07", "C08", "C09", "C10", "C11", "C12", "C13", "C14", "C15", "C16", "C17", "C18", "C19", "C20"}
 
 NOT_YET = "check not built yet in this session (see DESIGN.md section 3 for the planned bounded-exhaustive design)"
 
